@@ -17,6 +17,7 @@ class Matched:
         self.posmap = {}  # unit id -> [real offset per token] + end
         self.pads = {}
         self.failure = None
+        self.deferred = []
 
     def tok_addr(self):
         """tok id -> real address (byte tokens and labels alike)"""
@@ -35,8 +36,10 @@ def align_model(world, model, obs, armed):
     """Adopt new units and match bytes.  Raises C01 violations when C01 is
     armed, Desync otherwise."""
     try:
-        observe.adopt_new_units(world, model, obs, armed)
+        _reconcile_proxies(world, model)
+        deferred = observe.adopt_new_units(world, model, obs, armed)
         mt = Matched(world, model, obs)
+        mt.deferred = deferred
         for sname in model.section_order:
             units = model.sections[sname]
             real = {o.unit: o for o in obs.sections.get(sname, [])}
@@ -75,6 +78,26 @@ def align_model(world, model, obs, armed):
         raise core.Desync(f"bytes differ from the model ({v.vclass}: {v.witness})")
 
 
+def _reconcile_proxies(world, model):
+    """A label that sat directly in front of a block deleted with
+    retarget_to_proxy may legitimately have gone to the proxy with it (in
+    the listing it is indistinguishable from the block's own labels)."""
+    import gtirb
+
+    if not model.proxy_ambiguous:
+        return
+    byname = {}
+    for s in world.module.symbols:
+        byname.setdefault(s.name, []).append(s)
+    for name in sorted(model.proxy_ambiguous):
+        syms = byname.get(name, [])
+        if len(syms) == 1 and isinstance(syms[0].referent, gtirb.ProxyBlock):
+            for _, u in model.units():
+                u.toks = [t for t in u.toks if not (t.kind == "label" and t.name == name)]
+            model.proxy_syms.add(name)
+    model.proxy_ambiguous = set()
+
+
 def _absorb_padding(model, u, o, mt):
     """Validated padding becomes part of the listing (as 'pad' tokens) so
     that later sessions see the same bytes as the implementation."""
@@ -86,17 +109,41 @@ def _absorb_padding(model, u, o, mt):
     pads = dict(mt.pads[u.id])
     nop = mt.world.isa.nop
     done = set()
+    import gtirb
+
+    realpos = {}
+    for s in mt.world.module.symbols:
+        r = s.referent
+        if isinstance(r, gtirb.ByteBlock) and r.address is not None:
+            realpos.setdefault(s.name, []).append(r.address + (r.size if s.at_end else 0))
+    def emit_with_labels(pr, pl):
+        # labels at this boundary stay on the side of the padding where
+        # the implementation has them
+        held = []
+        while new_toks and new_toks[-1].kind == "label" and new_pm[-1] == pr:
+            held.append((new_toks.pop(), new_pm.pop()))
+        held.reverse()
+        before = [(lt, lp) for lt, lp in held if o.addr is None or (o.addr + pr) in realpos.get(lt.name, [o.addr + pr])]
+        after = [(lt, lp) for lt, lp in held if (lt, lp) not in before]
+        for lt, lp in before:
+            new_toks.append(lt)
+            new_pm.append(lp)
+        _emit_pad(model, new_toks, new_pm, o, pr, pl, nop)
+        for lt, lp in after:
+            new_toks.append(lt)
+            new_pm.append(pr + pl)
+
     for t, p in zip(u.toks, pm):
         if t.is_bytes():
             for pr, pl in pads.items():
                 if pr + pl == p and pr not in done:
                     done.add(pr)
-                    _emit_pad(model, new_toks, new_pm, o, pr, pl, nop)
+                    emit_with_labels(pr, pl)
         new_toks.append(t)
         new_pm.append(p)
     for pr, pl in pads.items():
         if pr not in done:
-            _emit_pad(model, new_toks, new_pm, o, pr, pl, nop)
+            emit_with_labels(pr, pl)
     new_pm.append(pm[-1])
     u.toks = new_toks
     mt.posmap[u.id] = new_pm
@@ -127,6 +174,70 @@ def check_c01(mt, sess):
 
 
 # ------------------------------------------------------------------ C02
+
+
+def _empty_interval_in_gap(mt, sname, u, i, bi):
+    model = mt.model
+    uid = mt.world.unit_of_interval.get(str(bi.uuid))
+    units = model.sections[sname]
+    ids = [x.id for x in units]
+    if uid not in ids:
+        return False
+    k = ids.index(uid)
+    ui = units.index(u)
+    # bytes between the label and that unit?
+    if k == ui:
+        return True
+    if k < ui:
+        # everything from unit k+1 .. the label must be free of bytes
+        for x in units[k + 1 : ui]:
+            if x.bytes():
+                return False
+        return not any(t.is_bytes() for t in u.toks[:i])
+    for x in units[ui + 1 : k]:
+        if x.bytes():
+            return False
+    return not any(t.is_bytes() for t in u.toks[i:])
+
+
+def _equivalent_positions(mt, sname, u, i):
+    """Addresses that denote the same listing position as token i of unit u:
+    the end of the previous byte token and the start of the next one, when
+    only zero-width tokens (and unit boundaries / address gaps) separate
+    them."""
+    model = mt.model
+    units = model.sections[sname]
+    ui = units.index(u)
+    out = set()
+    # to the right
+    found = False
+    for k, uu in enumerate(units[ui:]):
+        o = mt.unit_obs.get(uu.id)
+        toks = uu.toks[i:] if k == 0 else uu.toks
+        base = i if k == 0 else 0
+        for j, t in enumerate(toks):
+            if t.is_bytes():
+                if o is not None and o.addr is not None:
+                    out.add(o.addr + mt.posmap[uu.id][base + j])
+                found = True
+                break
+        if found:
+            break
+    # to the left
+    found = False
+    for k, uu in enumerate(reversed(units[: ui + 1])):
+        o = mt.unit_obs.get(uu.id)
+        hi = i if k == 0 else len(uu.toks)
+        for j in range(hi - 1, -1, -1):
+            t = uu.toks[j]
+            if t.is_bytes():
+                if o is not None and o.addr is not None:
+                    out.add(o.addr + mt.posmap[uu.id][j] + len(t.b))
+                found = True
+                break
+        if found:
+            break
+    return out
 
 
 def check_c02(mt, sess):
@@ -173,7 +284,11 @@ def check_c02(mt, sess):
                 raise core.Violation("C02", "label-position", {"symbol": t.name, "what": "referent has no address"}, {"kind": "no-address"})
             real = r.address + (r.size if s.at_end else 0)
             want = o.addr + pm[i]
-            ok = real == want
+            ok = real == want or real in _equivalent_positions(mt, sname, u, i)
+            if not ok and r.size == 0 and r.byte_interval is not None and r.byte_interval.size == 0:
+                # zero-sized block kept in an emptied interval: same listing
+                # position iff that interval sits in the same gap
+                ok = _empty_interval_in_gap(mt, sname, u, i, r.byte_interval)
             if not ok:
                 # a label at a padded boundary may sit on either side
                 before = want - o.addr
@@ -187,7 +302,7 @@ def check_c02(mt, sess):
                     "C02",
                     "label-position" if t.origin == "orig" else "patch-label-position",
                     {"symbol": t.name, "expected_addr": want, "real_addr": real, "at_end": bool(s.at_end), "unit": u.id},
-                    {"kind": "moved", "origin": "orig" if t.origin == "orig" else "patch"},
+                    {"kind": "moved", "origin": "orig" if t.origin == "orig" else "patch", "layout_reordered": bool(mt.obs.reordered)},
                 )
     for name in model.proxy_syms:
         for s in byname.get(name, []):
